@@ -336,7 +336,7 @@ theorem lk_main_kSRel (cfg : Cfg) (s s' : State) (i : Nat) (hm : s.mpc = .kSRel 
   · cases h
 
 
-theorem lk_main_pAcq (cfg : Cfg) (s s' : State) (a : List Int) (hm : s.mpc = .pAcq a)
+theorem lk_main_pAcq (cfg : Cfg) (s s' : State) (a : List Int) (c : Nat) (hm : s.mpc = .pAcq a c)
     (h : stepMain cfg s = some s') (inv : LK s) : LK s' := by
   obtain ⟨l1, l2, l3, l4⟩ := inv
   unfold stepMain at h
@@ -381,7 +381,7 @@ theorem lk_stepMain (cfg : Cfg) (s s' : State) (h : stepMain cfg s = some s')
   have hcreat := si.g.creat
   cases hm : s.mpc <;>
   (first
-    | exact lk_main_pAcq cfg s s' _ hm h ⟨l1, l2, l3, l4⟩
+    | exact lk_main_pAcq cfg s s' _ _ hm h ⟨l1, l2, l3, l4⟩
     | exact lk_main_pGoSet cfg s s' _ hm h si ⟨l1, l2, l3, l4⟩
     | exact lk_main_pOpen cfg s s' _ hm h si ⟨l1, l2, l3, l4⟩
     | exact lk_main_pStart cfg s s' _ hm h si ⟨l1, l2, l3, l4⟩
